@@ -81,7 +81,8 @@ CLAIMED = {
         design_ref="DESIGN.md §5 C14"),
     "C15": dict(
         engine="RtDispatcher",
-        technique="TLA+ spec RtDispatcher.tla model-checked with TLC; seeded random arrival / job / idle-handler scenarios on the "
+        technique="TLA+ spec RtDispatcher.tla model-checked with TLC (exhaustive for small constants, tlc -simulate beyond them, must-fail "
+                  "configurations FixPool=FALSE / IdleOnAnyDone=TRUE); seeded random arrival / job / idle-handler scenarios on the "
                   "real RealtimeDispatcher under a virtual clock judged by TLC (RtTrace.tla: RtProps predicates)",
         text="Never-early, per-source order, drop-and-report of out-of-order events, idle handlers only when idle are invariants of the "
              "loop model; on the implementation the same predicates plus bounded-response delivery (every kept item exactly once per "
